@@ -762,6 +762,7 @@ def translate() -> tuple[str, dict]:
     def mk_side(is_disp: bool):
         return SObj('Side', {
             'planes': [sym_vec('p0'), sym_vec('p1'), sym_vec('p2')], 'uaxis': sym_uv('u'), 'vaxis': sym_uv('w'),
+            'strata_points': [sym_vec('sp')],
             'is_disp': is_disp, 'disp_pos': sym_vec('dp') if is_disp else None,
             '_disp_verts': [SObj('DispVertex', {'offset': sym_vec('vo'), 'normal': sym_vec('vn'), 'offset_norm': sym_vec('von')})]
             if is_disp else None})
@@ -772,6 +773,8 @@ def translate() -> tuple[str, dict]:
         E.define(f'g_side_plane{i}', P3, out_vec(sd.f['planes'][i]), f'Side.localise: planes[{i}] afterwards')
     E.define('g_side_uaxis', [('u', U), ('o', V), ('m', Mx)], out_uv(sd.f['uaxis']), 'Side.localise: uaxis afterwards')
     E.define('g_side_vaxis', [('w', U), ('o', V), ('m', Mx)], out_uv(sd.f['vaxis']), 'Side.localise: vaxis afterwards')
+    E.define('g_side_strata_point', [('sp', V), ('o', V), ('m', Mx)], out_vec(sd.f['strata_points'][0]),
+             'Side.localise: an explicit vertex (strata_points / point_data) afterwards')
     E.define('g_side_disp_pos', [('dp', V), ('o', V), ('m', Mx)], out_vec(sd.f['disp_pos']), 'Side.localise (displacement): disp_pos afterwards')
     vert = sd.f['_disp_verts'][0]
     E.define('g_side_vert_offset', [('vo', V), ('m', Mx)], out_vec(vert.f['offset']), 'Side.localise (displacement): vertex offset afterwards')
@@ -781,7 +784,8 @@ def translate() -> tuple[str, dict]:
     sd2 = mk_side(False); o2 = sym_vec('o'); m2 = sym_mat('m')
     I.call_method(sd2, 'localise', [o2, m2])
     same = all(out_vec(sd.f['planes'][i]) == out_vec(sd2.f['planes'][i]) for i in range(3)) and \
-        out_uv(sd.f['uaxis']) == out_uv(sd2.f['uaxis']) and out_uv(sd.f['vaxis']) == out_uv(sd2.f['vaxis'])
+        out_uv(sd.f['uaxis']) == out_uv(sd2.f['uaxis']) and out_uv(sd.f['vaxis']) == out_uv(sd2.f['vaxis']) and \
+        out_vec(sd.f['strata_points'][0]) == out_vec(sd2.f['strata_points'][0])
     E.lines.append(f'Definition g_side_plain_same_as_disp : bool := {"true" if same else "false"}.')
 
     sd = mk_side(False)
@@ -790,6 +794,8 @@ def translate() -> tuple[str, dict]:
     I.call_method(sol, 'localise', [o, m])
     E.define('g_solid_plane0', P3, out_vec(sd.f['planes'][0]), 'Solid.localise: sides[0].planes[0] afterwards')
     E.define('g_solid_plane2', P3, out_vec(sd.f['planes'][2]), 'Solid.localise: sides[0].planes[2] afterwards')
+    E.define('g_solid_strata_point', [('sp', V), ('o', V), ('m', Mx)], out_vec(sd.f['strata_points'][0]),
+             'Solid.localise: sides[0].strata_points[0] afterwards')
     E.define('g_solid_uaxis', [('u', U), ('o', V), ('m', Mx)], out_uv(sd.f['uaxis']), 'Solid.localise: sides[0].uaxis afterwards')
 
     # --- instancing.py sites -----------------------------------------------------------------
